@@ -240,6 +240,84 @@ theorem cell_of_built (d : Option Rat) (ix : List Int) (cols : List String) (g :
   have h2 := (posOf_some ix t i hi).1
   simp only [cellD, h1, lookF, srcRow, hi, Option.bind_some, List.getElem?_map, h2, Option.map_some, Option.join_some]
 
+theorem appO_neutral_right (op : Op) (x : Option Rat) : op.appO x (some op.neutral) = x := by
+  cases op <;> cases x <;> simp [Op.appO, Op.app, Op.neutral, Rat.add_zero, Rat.mul_one] <;> grind
+
+theorem appO_neutral_left_add (x : Option Rat) : Op.appO .add (some (Op.neutral .add)) x = x := by
+  cases x <;> simp [Op.appO, Op.app, Op.neutral, Rat.zero_add]
+
+theorem appO_neutral_left_mul (x : Option Rat) : Op.appO .mul (some (Op.neutral .mul)) x = x := by
+  cases x <;> simp [Op.appO, Op.app, Op.neutral, Rat.one_mul]
+
+/-- a column the frame has: the default is irrelevant -/
+theorem cellD_mem (d d' : Option Rat) (f : RFrame) (m : Option Dir) (c : String) (t : Int) (h : c ∈ f.names) :
+    cellD d f m c t = cellD d' f m c t := by
+  unfold cellD
+  cases hc : colOf f c with
+  | none => exact absurd h ((colOf_none_iff f c).mp hc)
+  | some col => rfl
+
+/-- a column the frame lacks: the default -/
+theorem cellD_not_mem (d : Option Rat) (f : RFrame) (m : Option Dir) (c : String) (t : Int) (h : c ∉ f.names) :
+    cellD d f m c t = d := by
+  unfold cellD
+  rw [(colOf_none_iff f c).mpr h]
+
+theorem frameCols_comm (ch : ColHow) (a b : RFrame) : frameCols ch a b = frameCols ch b a := by
+  unfold frameCols
+  by_cases h : b.names = a.names
+  · simp [h]
+  · have h' : ¬ a.names = b.names := fun e => h e.symm
+    simp only [h, h', if_false]
+    apply sortedS_ext _ _ (sorted_sortS _) (sorted_sortS _)
+    intro t
+    cases ch
+    · simp only [mem_sortS, List.foldl_cons, List.foldl_nil, mem_interS]; exact And.comm
+    · simp only [mem_sortS, List.foldl_cons, List.foldl_nil, mem_unionS]; exact Or.comm
+
+/-- one column of the result of a frame with several columns and a Series -/
+theorem col_value_ts (op : Op) (d : Option Rat) (c : String) (a : RFrame) (s : RSeries) (ix : List Int) (m : Option Dir)
+    (ha : a.cols.length > 1) :
+    bcast ix (kernel op (colArg d c (.df (reindexF a ix m))) (colArg d c (.ts (reindexR s ix m)))) =
+      ix.map fun t => op.appO (cellD d a m c t) (lookR s m t) := by
+  rw [colArg_df d c a ix m ha, reindexR_eq]
+  unfold cellD
+  cases colOf a c <;> simp only [colArg, bcast_tt, bcast_nt]
+
+theorem col_value_ts' (op : Op) (d : Option Rat) (c : String) (a : RFrame) (s : RSeries) (ix : List Int) (m : Option Dir)
+    (ha : a.cols.length > 1) :
+    bcast ix (kernel op (colArg d c (.ts (reindexR s ix m))) (colArg d c (.df (reindexF a ix m)))) =
+      ix.map fun t => op.appO (lookR s m t) (cellD d a m c t) := by
+  rw [colArg_df d c a ix m ha, reindexR_eq]
+  unfold cellD
+  cases colOf a c <;> simp only [colArg, bcast_tt, bcast_tn]
+
+theorem col_value_num (op : Op) (d : Option Rat) (c : String) (a : RFrame) (q : Option Rat) (ix : List Int) (m : Option Dir)
+    (ha : a.cols.length > 1) :
+    bcast ix (kernel op (colArg d c (.df (reindexF a ix m))) (colArg d c (.num q))) =
+      ix.map fun t => op.appO (cellD d a m c t) q := by
+  rw [colArg_df d c a ix m ha]
+  unfold cellD
+  cases colOf a c <;> simp only [colArg, bcast_tn, bcast_nn]
+
+theorem col_value_num' (op : Op) (d : Option Rat) (c : String) (a : RFrame) (q : Option Rat) (ix : List Int) (m : Option Dir)
+    (ha : a.cols.length > 1) :
+    bcast ix (kernel op (colArg d c (.num q)) (colArg d c (.df (reindexF a ix m)))) =
+      ix.map fun t => op.appO q (cellD d a m c t) := by
+  rw [colArg_df d c a ix m ha]
+  unfold cellD
+  cases colOf a c <;> simp only [colArg, bcast_nt, bcast_nn]
+
+theorem resultCols_one (ch : ColHow) (a : RFrame) : resultCols ch [a.names] = some a.names := by
+  simp [resultCols]
+
+theorem names_ne_nil (a : RFrame) (ha : a.cols.length > 1) : a.names ≠ [] := by
+  intro h
+  have : a.names.length = a.cols.length := by simp [RFrame.names]
+  rw [h] at this
+  simp at this
+  omega
+
 theorem joinIndex_two (how : How) (x y : List Int) : ∃ ix, joinIndex how [x, y] = some ix := by
   cases how <;> exact ⟨_, rfl⟩
 
